@@ -183,6 +183,20 @@ def run_image(case, ctx):
                 want = np.stack([field_list({t: v[b] for t, v in blocks.items()})[comp] for b in range(nb)])
                 if got.shape != want.shape or err_exact(got, want) > 1e-5:
                     viols.append(viol("batch-get-component-crosstalk", f"batch_get_component({comp}) differs from the per-entry result (shape {got.shape} vs {want.shape}); {key}"))
+                # slices selecting several components (the per-entry result of a slice is the stacked fields of that entry)
+                for sl in ([slice(None)] + ([slice(lo_, lo_ + 2) for lo_ in {0, int(rng.integers(0, len(fl0) - 1))}] if len(fl0) >= 2 else [])):
+                    got = np.asarray(mi.batch_get_component(sl, future)[(0, 0)])
+                    evals += 1
+                    want = np.stack([np.stack(field_list({t: v[b] for t, v in blocks.items()})[sl]).reshape((-1,) + sp) for b in range(nb)])
+                    if got.shape != want.shape or err_exact(got, want) > 1e-5:
+                        viols.append(viol("batch-get-component-crosstalk", f"batch_get_component({sl}) differs from the per-entry get_component({sl}) (shape {got.shape} vs {want.shape}); {key}"))
+                        break
+                    # and against the library's own single-entry call
+                    b0 = int(rng.integers(nb))
+                    single = np.asarray(mi.get_one(b0, keepdims=False).get_component(sl, future)[(0, 0)])
+                    if single.shape != got[b0].shape or err_exact(got[b0], single) > 1e-5:
+                        viols.append(viol("batch-get-component-crosstalk", f"batch_get_component({sl})[{b0}] != get_component({sl}) on entry {b0}; {key}"))
+                        break
         elif op == "to_images":
             imgs = mi.to_images()
             evals += 1
